@@ -1,3 +1,37 @@
-import Mwp.Spec.Syntax
+/-
+  C19 — Loop discovery and program statistics match the source.
+  What is proved: the model of FindLoops returns exactly the loop statements of the source in
+  pre-order through EVERY statement container (blocks, branches, loop bodies, switch bodies,
+  cases, labels), `for` statements counting iff they are counted loops.  The spec traversal
+  `Spec.allLoops` knows nothing about pymwp's handler tables.  Statistics (n_func, n_loops,
+  variable counts) and `loc` are tied by correspondence (harness/props/c19.py); `Spec.loc` is the
+  line lexer the harness compares the regex-based `file_io.loc` with.
+-/
+import Mwp.Lemmas.SyntaxThmsVars
 namespace Mwp.Props.C19
+open Mwp Mwp.Syntax
+
+theorem findLoops_is_source_order (n : Node) :
+    loopsN n = .ok (Spec.allLoops Spec.countedFor n) :=
+  loopsN_eq_allLoops n
+
+/-- the number of loops reported as a statistic is the number of loops of the source -/
+theorem n_loops_is_source_count (fs : List Node) :
+    (fs.map fun f => (loopsN f).toOption.map List.length) =
+      fs.map fun f => some (Spec.allLoops Spec.countedFor f).length := by
+  apply List.map_congr_left
+  intro f _
+  rw [loopsN_eq_allLoops]
+  rfl
+
+-- non-vacuity: a loop under a label inside a branch inside a loop is found, in source order
+example : (Spec.allLoops Spec.countedFor
+    (.funcDef (.decl (some "f") (.funcDecl none) none) (.compound (some [
+      .while_ (.id "x") (.compound (some [
+        .ifs (.id "x") (some (.label "L" (.doWhile (.id "y") (.compound none)))) none]))])))).length = 2 := by
+  decide
+
+/-- the line lexer on the multi-line-comment witness -/
+example : Spec.loc "int a; /* c1\n c2 */ int b;\n" = 2 := by decide
+
 end Mwp.Props.C19
